@@ -1337,6 +1337,11 @@ def fact_builder_sibling(rep, ex: Explorer):
                 shape = parts is not None and F.canon(parts[1]) == F.canon(F.FALSE) and parts[0][0] == "not" and parts[0][1][0] == "opaque"
                 ok &= shape and fam == FACTS
                 det = f"(B:{F.show(parts[1])} | A:{F.show(parts[0])})" if parts else repr(vt)
+                if shape and fam == FACTS and g != PTRUE:
+                    # a fact that is left out of the augmented base: (Bottom|¬φ) is a constraint of its own even when φ is valid
+                    # ((Bottom|Bottom) is never tolerated: the combination is inconsistent / its infinity layer grows)
+                    ok = False
+                    det = f"only the facts with {show_pred(g)[:120]} get a conditional"
         n += 1
         rep.check(ok, "FACT.shape", site, "fact conditionals", "a fact φ becomes the conditional (Bottom | ¬φ)", extracted=det, required="A ≡ ¬φ, B ≡ ⊥", function=site)
         # running key starts at start_index+1
